@@ -520,7 +520,7 @@ func (c *Ctx) uncountedSuccess(ia *interpAnchors, gate *ssa.BasicBlock, core *ex
 	procStart := c.fld("intp.procStart")
 	collects := func(b *ssa.BasicBlock) bool {
 		for _, ins := range b.Instrs {
-			if st, ok := ins.(*ssa.Store); ok && isFieldAddr(st.Addr, ia.T, procStart) {
+			if writesField(ins, ia.T, procStart) { // here, or in a method of the field's type (ext_x5.go)
 				return true
 			}
 		}
@@ -904,6 +904,7 @@ func (c *Ctx) stackGrowth(ia *interpAnchors) {
 			}
 		})
 	}
+	c.stackGrowthVia(ia, newInterp) // growth through a method of the field's own type (ext_x5.go)
 	c.floor("L5-GROWTH", 4)
 	// end: never below two dictionaries
 	end := reg.op("systemdict", "end")
